@@ -120,8 +120,14 @@ type Observation struct {
 // buildRecipients makes the real recipient objects of a list (one object per list position).
 func buildRecipients(w *world.World, rs []rcp) []age.Recipient {
 	var recips []age.Recipient
+	same := map[string]age.Recipient{} // a key listed twice is the SAME recipient value twice (what a caller with one parsed key does)
 	for _, r := range rs {
+		if rc, ok := same[r.ID]; ok {
+			recips = append(recips, rc)
+			continue
+		}
 		rc := w.Recipient(r.ID)
+		same[r.ID] = rc
 		if sr, ok := rc.(*age.ScryptRecipient); ok {
 			sr.SetWorkFactor(r.WF)
 		}
@@ -815,6 +821,24 @@ func fresh(run *vk.Run, t *Terms, w *world.World) {
 				if err != nil || !bytes.Equal(got, pt) {
 					run.Violation(fmt.Sprintf("C05:reference-file-does-not-decrypt:rs=%s/armor=%v", rsSig(c.Rs), armored), fmt.Sprintf("a file written by the reference encoder (recipients %s, %d bytes, armor=%v) does not decrypt with %s: %v", rsSig(c.Rs), ln, armored, r.ID, err), nil)
 				}
+				if r.K == "S" {
+					// a passphrase file keeps decrypting with an identity whose maximum is exactly the file's work factor
+					id, _ := age.NewScryptIdentity(w.Pw[r.ID])
+					id.SetMaxWorkFactor(r.WF)
+					var in io.Reader = bytes.NewReader(file)
+					if armored {
+						in = armor.NewReader(in)
+					}
+					var got []byte
+					rd, err := age.Decrypt(in, id)
+					if err == nil {
+						got, err = io.ReadAll(rd)
+					}
+					run.Eval(1)
+					if err != nil || !bytes.Equal(got, pt) {
+						run.Violation(fmt.Sprintf("C05:reference-file-does-not-decrypt:scrypt-at-maximum:wf=%d", r.WF), fmt.Sprintf("a passphrase file with work factor %d does not decrypt with an identity whose maximum work factor is %d: %v", r.WF, r.WF, err), nil)
+					}
+				}
 			}
 			run.Distinct(fmt.Sprintf("fresh:%s:%d", rsSig(c.Rs), ln))
 			n++
@@ -946,6 +970,7 @@ func RunC06(tier string) {
 	run.Add("histories", nh)
 	run.Sample(map[string]interface{}{"recipients": rsSig(t.Cases[len(t.Cases)/3].Rs), "plan": t.Cases[len(t.Cases)/3].Plan})
 	randFaultProvenance(run, t, w)
+	shortReadProvenance(run, t, w)
 	nonceReuseAfterWriteError(run, rng)
 	closedWriterPlans(run, rng)
 	repoSuiteTrace(run)
@@ -974,6 +999,61 @@ func (f *faultTape) Read(p []byte) (int, error) {
 	n, err := f.inner.Read(p)
 	f.draws = append(f.draws, append([]byte{}, p[:n]...))
 	return n, err
+}
+
+// shortTape passes the system CSPRNG through k bytes at a time (an io.Reader may return fewer bytes than asked for) and
+// records what it delivered.
+type shortTape struct {
+	inner io.Reader
+	k     int
+	draws [][]byte
+}
+
+func (s *shortTape) Read(p []byte) (int, error) {
+	if len(p) > s.k {
+		p = p[:s.k]
+	}
+	n, err := s.inner.Read(p)
+	s.draws = append(s.draws, append([]byte{}, p[:n]...))
+	return n, err
+}
+
+// shortReadProvenance: with a CSPRNG source that hands out one or three bytes per Read, every secret of the file is
+// still made of CSPRNG output only (a caller that takes one short Read for a full draw leaves zeros in its secret).
+func shortReadProvenance(run *vk.Run, t *Terms, w *world.World) {
+	saved := crand.Reader
+	defer func() { crand.Reader = saved }()
+	for _, rs := range [][]rcp{{{K: "X", ID: "x1"}}, {{K: "E", ID: "e1"}}, {{K: "E", ID: "e1"}, {K: "X", ID: "x1"}}, {{K: "S", ID: "s1", WF: 5}}} {
+		c := findCase(t, rs)
+		if c == nil {
+			continue
+		}
+		for _, k := range []int{1, 3} {
+			st := &shortTape{inner: saved, k: k}
+			var o Observation
+			var buf bytes.Buffer
+			var wc io.WriteCloser
+			var pan interface{}
+			func() {
+				defer func() { pan = recover() }()
+				crand.Reader = st
+				defer func() { crand.Reader = saved }()
+				wc, o.Err = age.Encrypt(&buf, buildRecipients(w, rs)...)
+			}()
+			run.Eval(1)
+			sig := fmt.Sprintf("shortreads:%s/%d", rsSig(rs), k)
+			run.Distinct(sig)
+			if pan != nil || o.Err != nil {
+				continue // refusing to work with such a source is fine
+			}
+			wc.Write([]byte("x"))
+			wc.Close()
+			o.Out, o.Draws = buf.Bytes(), st.draws
+			if role, why := provenance(w, c, o, o.Out); role != "" {
+				run.Violation("C06:secret-not-from-csprng:"+role+":"+sig, fmt.Sprintf("recipients [%s], CSPRNG delivering %d byte(s) per Read: %s", rsSig(rs), k, why), map[string]interface{}{"check": "C06.shortreads", "rs": rs, "k": k})
+			}
+		}
+	}
 }
 
 // randFaultProvenance: the CSPRNG fails once, at each draw of an Encrypt call in turn. Either Encrypt reports the
